@@ -794,7 +794,9 @@ class ConcreteSeparable(Task):
 
     def _instance(self):
         c = self.cfg
-        return concrete_mixture(c["dims"][0], c["dims"][1], c["terms"], c["entries"] == "complex")
+        if c.get("terms") == "identity":
+            return np.eye(c["dims"][0] * c["dims"][1]) * c.get("scale", 1.0)
+        return concrete_mixture(c["dims"][0], c["dims"][1], c["terms"], c["entries"] == "complex") * c.get("scale", 1.0)
 
     def _verdict(self):
         rho = self._instance()
@@ -838,6 +840,22 @@ def concrete_tasks(T):
                     dim = [dA, dB] if form == "list" else None
                     out.append(ConcreteSeparable("is_separable.concrete_product_mixtures_are_declared_separable", cfg,
                                                  lambda rho, dim=dim: is_separable(rho, dim)))
+    # un-normalised operators (trace != 1): the verdict of c * rho is the verdict of rho.  Members of the family on which
+    # the unchanged criteria decide by a clear margin (rank-4 3x3 determinant test, real mixtures on 2x4 / 4x2, the identity)
+    scaled = [((3, 3), 4, False), ((3, 3), 4, True), ((2, 4), 3, False), ((4, 2), 4, False), ((2, 4), 9, False), ((4, 4), 1, False),
+              ((2, 3), 3, True), ((2, 2), 2, True)]
+    for (dA, dB), K, cplx in scaled:
+        for sc in ([7.0, 0.25] if (T or (dA, dB) in [(3, 3), (2, 4), (2, 3)]) else [7.0]):
+            cfg = {"dims": [dA, dB], "terms": K, "entries": "complex" if cplx else "real", "dim_arg": "list", "scale": sc,
+                   "family": "c * sum_k (1/K) P(a_k) (x) P(b_k): an un-normalised separable operator (trace c)"}
+            out.append(ConcreteSeparable("is_separable.concrete_product_mixtures_are_declared_separable", cfg,
+                                         lambda rho, dim=[dA, dB]: is_separable(rho, dim)))
+    for (dA, dB), form in [((3, 3), "list"), ((3, 3), "omitted"), ((2, 4), "list"), ((2, 4), "scalar"), ((4, 4), "omitted")]:
+        cfg = {"dims": [dA, dB], "terms": "identity", "entries": "real", "dim_arg": form, "scale": 1.0,
+               "family": "the identity operator (un-normalised maximally mixed state, trace dA*dB)"}
+        dim = {"list": [dA, dB], "omitted": None, "scalar": dA}[form]
+        out.append(ConcreteSeparable("is_separable.concrete_product_mixtures_are_declared_separable", cfg,
+                                     lambda rho, dim=dim: is_separable(rho, dim)))
     for dA, dB in [(2, 2), (2, 3), (3, 3), (2, 4)]:
         for K in ([1, 2, 3, dA * dB + 1] if T else ([2, dA * dB + 1] if dA * dB <= 6 else [2])):
             for level, ppt in [(1, True), (2, True), (2, False)]:
